@@ -213,6 +213,9 @@ RoundTripLabels(P2, e) ==
          UNION {LabelFor(P2.taint, e.m, x.v, "C18.SavedSpecsRoundTrip") : x \in bad \cup badl}
          \cup (IF e.res = "ok" /\ (dl \ {x.loc : x \in exp}) # {}
                THEN {"C18.SavedSpecsRoundTrip"} ELSE {})
+         \* references bound to modelx objects are bound to the corresponding
+         \* objects of the copy
+         \cup (IF e.res = "ok" /\ ~e.orefs_ok THEN {"C18.SavedSpecsRoundTrip"} ELSE {})
 
 AllLabels(P2, pre, e, post) ==
     SpecLabels(P2, post) \cup OrphanLabels(P2, post) \cup LocLabels(post)
